@@ -7,6 +7,7 @@ package main
 
 import (
 	"bufio"
+	"regexp"
 	"encoding/json"
 	"fmt"
 	"os"
@@ -142,7 +143,7 @@ func checkMain(args []string) {
 			}
 			var keep []*Oblig
 			for _, o := range u.obligs {
-				if (o.class == "post" || o.class == "assert" || o.class == "frame") && !o.expectFail {
+				if (o.class == "post" || o.class == "assert" || o.class == "frame") && !o.expectFail && !safetyLabel(o.label) {
 					skippedFunctional++
 					continue
 				}
@@ -434,6 +435,13 @@ func checkMain(args []string) {
 		os.Exit(1)
 	}
 }
+
+// safetyLabel: postconditions that carry representation invariants, index ranges
+// and aliasing facts (what callers' bounds and nil obligations rest on) stay in the
+// C20 run even when another check owns the function's functional obligations.
+var safetyLabelRE = regexp.MustCompile(`^(inv|range|names.*|local|no-remote|spare|alias|depth|length|anchor|resume.*|.*-range|safe-.*|nonnil)(@ret\d+)?$`)
+
+func safetyLabel(l string) bool { return safetyLabelRE.MatchString(l) }
 
 // claimedProperties reads the property ids claimed in MANIFEST.json.
 func claimedProperties(verif string) map[string]bool {
